@@ -39,7 +39,8 @@ class History:
     def __init__(self, case_id: str = 'c') -> None:
         self.case_id = case_id
         self.violations: list[dict[str, Any]] = []
-        self.owner: dict[tuple[bytes, int], bytes] = {}
+        self.owner: dict[tuple[bytes, int | None, int], bytes] = {}
+        self.validity_of: dict[bytes, int] = {}
         self.expunged_hint: list[int] = []     # UIDs some session expunged
         self.ncid = 0
         self.events: list[tuple[int, int, str, bytes]] = []
@@ -58,18 +59,31 @@ class History:
         self.ncid += 1
         return b'm%s-%d' % (self.case_id.encode(), self.ncid)
 
-    def learn(self, mbox: bytes, uid: int, cid: bytes, how: str) -> None:
-        key = (mbox.upper() if mbox.upper() == b'INBOX' else mbox, uid)
+    def _key(self, mbox: bytes, uid: int,
+             validity: int | None) -> tuple[bytes, int | None, int]:
+        """(name, UIDVALIDITY, UID) as a client caches it; where the caller
+        does not know the UIDVALIDITY the one last seen for the name is
+        meant (the same thing unless the mailbox was replaced)."""
+        name = mbox.upper() if mbox.upper() == b'INBOX' else mbox
+        if validity is None:
+            validity = self.validity_of.get(name)
+        else:
+            self.validity_of[name] = validity
+        return name, validity, uid
+
+    def learn(self, mbox: bytes, uid: int, cid: bytes, how: str,
+              validity: int | None = None) -> None:
+        key = self._key(mbox, uid, validity)
         old = self.owner.get(key)
         if old is not None and old != cid:
             self.report('uid-denotes-two-messages',
-                        '%r uid %d: %r and %r (%s)' % (
-                            mbox, uid, old, cid, how))
+                        '%r UIDVALIDITY %r uid %d: %r and %r (%s)' % (
+                            mbox, key[1], uid, old, cid, how))
         self.owner[key] = cid
 
-    def lookup(self, mbox: bytes, uid: int) -> bytes | None:
-        key = (mbox.upper() if mbox.upper() == b'INBOX' else mbox, uid)
-        return self.owner.get(key)
+    def lookup(self, mbox: bytes, uid: int,
+               validity: int | None = None) -> bytes | None:
+        return self.owner.get(self._key(mbox, uid, validity))
 
     def count(self, what: str) -> None:
         self.ops[what] = self.ops.get(what, 0) + 1
@@ -96,8 +110,8 @@ class History:
         message that owns that UID."""
         n = 0
         for s in self.sessions:
-            for mbox, uid, cid, step in s.labels:
-                want = self.lookup(mbox, uid)
+            for mbox, uid, cid, step, val in s.labels:
+                want = self.lookup(mbox, uid, val)
                 if want is None:
                     continue
                 n += 1
@@ -123,7 +137,7 @@ class Session:
         self.rng = random.Random(seed)
         self.rng_sets = random.Random(seed * 7919 + 13)
         self.user = user
-        self.labels: list[tuple[bytes, int, bytes, int]] = []
+        self.labels: list[tuple[bytes, int, bytes, int, int | None]] = []
         self.results: list[Result] = []
         self.failed: str | None = None
         hist.sessions.append(self)
@@ -174,7 +188,8 @@ class Session:
             self.shadow.labels.clear()
             return
         for uid, cid, step in self.shadow.labels:
-            self.labels.append((mbox, uid, cid, step))
+            self.labels.append((mbox, uid, cid, step,
+                                self.shadow.uidvalidity))
         self.shadow.labels.clear()
 
     @property
@@ -214,7 +229,8 @@ class Session:
                                  '%d uids for %d messages' % (
                                      len(uids), len(cids)))
             for uid, cid in zip(uids, cids):
-                self.hist.learn(mbox, uid, cid, 'APPENDUID')
+                self.hist.learn(mbox, uid, cid, 'APPENDUID',
+                                r.tagged.data[0])
         self.hist.count('append')
         return r
 
@@ -224,15 +240,15 @@ class Session:
             if resp is None or resp.code != b'COPYUID' \
                     or not isinstance(resp.data, tuple):
                 continue
-            _, src, dst = resp.data
+            dval, src, dst = resp.data
             if len(src) != len(dst):
                 self.hist.report('copyuid-length-mismatch',
                                  '%r vs %r' % (src, dst))
                 continue
             for s, d in zip(src, dst):
-                cid = self.hist.lookup(src_box, s)
+                cid = self.hist.lookup(src_box, s, self.shadow.uidvalidity)
                 if cid is not None:
-                    self.hist.learn(dest, d, cid, 'COPYUID')
+                    self.hist.learn(dest, d, cid, 'COPYUID', dval)
 
     async def copy(self, seqset: bytes, dest: bytes, uid: bool = False,
                    move: bool = False) -> Result:
